@@ -14,7 +14,7 @@ from lib.common import MachineryError, classify_mismatches, log
 PKG = "./p2p/host/basic"
 
 INV = "INVARIANTS TypeOK RightHandler"
-PROPS = "PROPERTIES OpenBinds Agreement Dispatch OneHandler NoCommon RemovedNeverRuns CommonMeansSuccess KnowledgeSources"
+PROPS = "PROPERTIES OpenBinds Agreement Dispatch OneHandler NoCommon RemovedNeverRuns CommonMeansSuccess KnowledgeSources FirstOpFree"
 
 
 def _fast_unescape(s, _slow=tlc._unescape):
@@ -135,6 +135,12 @@ def _edge_stats(g):
                 inc("open_est_by_matcher")
             if op["res"] == "est" and op["p"] != op["req"][0]:
                 inc("open_est_not_first")
+        elif n == "use" and op["m"] == "rd":
+            inc("use_rd_first_" + op["res"] if op["first"] else "use_rd_again")
+        elif n == "finish":
+            inc("finish_%s_%s" % (op["m"], "first_" + op["res"] if op["first"] else "est"))
+        elif n == "reset":
+            inc("reset_" + op["ph"])
         elif n == "use":
             inc("use_first_" + op["res"] if op["first"] else "use_again")
             if op["first"] and op["res"] == "ok" and op["h"]["n"] != op["p"]:
@@ -182,8 +188,11 @@ REQUIRED_KINDS = {
               "use_first_ok", "use_first_fail", "use_first_by_matcher", "use_again", "use_token_payload_stray",
               "use_token_payload_nostray", "close_est",
               "close_unused_handler", "close_unused_nohandler", "add", "remove", "forget", "learn",
-              "open_by_B_est", "open_by_B_lazy", "open_by_B_fail", "bidir_reverse_open_of_unserved_id"),
-    "blank": ("open_fail", "open_est", "open_est_by_matcher", "open_est_not_first", "use_again", "close_est", "add", "remove"),
+              "open_by_B_est", "open_by_B_lazy", "open_by_B_fail", "bidir_reverse_open_of_unserved_id",
+              "use_rd_first_ok", "use_rd_first_fail", "use_rd_again", "finish_cw_first_ok", "finish_cw_first_fail", "finish_cw_est",
+              "finish_wcw_first_ok", "finish_wcw_first_fail", "finish_wcw_est", "reset_lazy", "reset_est"),
+    "blank": ("open_fail", "open_est", "open_est_by_matcher", "open_est_not_first", "use_again", "close_est", "add", "remove",
+              "finish_cw_est", "finish_wcw_est", "use_rd_again", "reset_est"),
 }
 
 
@@ -238,6 +247,10 @@ def run(ctx):
 
     res = goenv.run_harness(ctx, PKG, "^TestVerifC07Replay$", inputs=beh_dir, timeout=1500)
     div += classify_mismatches(ctx, res, "replay")
+    for k in ("wr", "rd", "cw", "wcw"):       # first operation x how the stream was opened, as executed
+        for how in ("optimistic", "negotiated"):
+            if not res["mismatches"] and not (res.get("extra") or {}).get("first_op_%s_on_%s" % (k, how)):
+                raise MachineryError("vacuity guard: no replayed first operation %s on a %s stream" % (k, how))
     edges_total = sum(r[3] for r in rres)
     if not res["mismatches"] and res["distinct"] < edges_total:
         raise MachineryError("replay executed %d distinct transitions of %d" % (res["distinct"], edges_total))
